@@ -93,6 +93,13 @@ CLAIMED['C16'] = dict(design='2/C16', engine='kani+mirsym', technique='Kani/CBMC
     'symbolic points in the box: z3 proves enclosure and validity (no NaN endpoint, ordered, no unwrap panic).',
     note='Two known findings (Bound + Bound and Bound * f64 panic when finite endpoints near f64::MAX overflow) are detected by full-range Kani probes each run and printed as KNOWN-FINDING; '
     'content_factor minimality is not solver-decided (concrete only, see evidence); rounding monotonicity outside the R-model half.')
+CLAIMED['C17'] = dict(design='2/C17', text='The MPS parser state machine (read_header, read_row_field, read_column_field, read_rhs_field, read_range_field, read_bound_field, finish, '
+    'from_lines) and mps::convert::* are executed from MIR on files rendered by an independent writer from abstract models (2 columns x 2 rows, every row type, 14 bound scenarios, '
+    'positive/negative ranges, objective constant, sense, integer markers, several layouts); all numbers are symbolic reals carried through the text as tokens. z3 proves the imported '
+    'instance equals the model: sense, objective incl. constant, one <=0 / =0 constraint per row with the right signs (two for ranged rows), per-column domain, names; and that each '
+    'injected fault (undeclared row in COLUMNS/RHS/RANGES, unknown row/bound/marker/sense keyword, unparsable number) is reported as an error.',
+    note='Lexing primitives (lines, split_whitespace, trim, f64::from_str) are modelled on concrete text, not executed; gzip and byte decoding outside; models larger than 2x2 outside (property: 6x5); '
+    'four defects found and repaired by fix: commits (FR ignored, objective constant only from row OBJ, UP 0 boundary, RHS for undeclared row), see known_findings.json.')
 NOT_APPLICABLE = {
     'C20': 'artifact round-trip lives in ocipkg/tar/sha2/serde_json/chrono and the file system: none of it is in the crate MIR and all of it is foreign/IO under Kani; a model would verify the model, not the code',
 }
